@@ -210,6 +210,12 @@ func main() {
 		rn.rw.Count("dense-sweep")
 		rn.iter(d)
 	}
+	// round 7: general matrices of size 6..10 with ComputeU whose real 2x2 blocks start at row >= 4 (own rng:
+	// the streams below are unchanged); the same inputs are replayed by the loop model in the icases stream
+	for _, d := range LateBlockSweep(NewRng(o.Seed*1000211 + 5).Split()) {
+		rn.rw.Count("late-block-sweep")
+		rn.iter(d)
+	}
 	maxn := 6
 	if o.Tier == "thorough" {
 		maxn = 8
